@@ -141,3 +141,18 @@ Theorem C12_small_decimal_has_no_exponent : forall neg d fp ed,
   nochar CH_E (float_text (sign neg ++ d :: frac fp ++ CH_E :: CH_MINUS :: ed)) = true.
 Proof. exact float_text_small_no_exponent. Qed.
 Print Assumptions C12_small_decimal_has_no_exponent.
+
+(* ---- the two text containers agree (Model/MdBook.v beside Model/CsvBook.v) ---- *)
+Require Import PX.Model.MdBook PX.Proofs.MdBook.
+(* For EVERY non-empty workbook of distinct supported sheets whose header rows hold distinct clean names and whose cells both formats can
+   carry (Markdown: no pipe, line break, hash or backslash; both: no white space at either end; empty cells and blank rows allowed):
+   the book md_to_dict reads from the rendered Markdown table IS the book csv_to_dict reads from the written CSV text - the same sheet
+   names in the same order, the same header rows, every filled cell under its own header, blank rows at the same places. *)
+Theorem C12_md_and_csv_agree : forall W, W <> [] -> NoDup (all_keys W) -> Forall PX.Proofs.CsvBook.sheet_ok W -> Forall md_ok W ->
+  Some (md_book (md_structure (render (map to_md W)))) = option_map (csv_book lower_ascii) (parse_csv (write_csv (flat_map sheet_rows W))).
+Proof. exact md_and_csv_agree. Qed.
+Print Assumptions C12_md_and_csv_agree.
+Theorem C12_md_and_csv_agree_nonvacuous :
+  ex_csv_workbook <> [] /\ NoDup (all_keys ex_csv_workbook) /\ Forall PX.Proofs.CsvBook.sheet_ok ex_csv_workbook /\ Forall md_ok ex_csv_workbook.
+Proof. exact ex_both_ok. Qed.
+Print Assumptions C12_md_and_csv_agree_nonvacuous.
